@@ -884,3 +884,78 @@ Proof.
   - split; [reflexivity|apply more_true; assumption].
   - split; [reflexivity|]. unfold more in M. apply negb_false_iff, Z.eqb_eq in M. unfold remaining. lia.
 Qed.
+
+(* ---------------------------------------------------------------------------------------- *)
+(* 9. X11 setup parser: every handler call moves to the next handler, so the loop of data_received goes round
+      at most three times per connection, whatever lengths (0 included) the setup block claims *)
+
+Lemma x_handle_rank remote local s data : xh s <> XNone ->
+  xrank (xh (x_handle remote local s data)) = xrank (xh s) - 1.
+Proof.
+  intros H. unfold x_handle. destruct (xh s) eqn:E; try congruence; cbn; try reflexivity.
+  destruct (zlist_eqb _ remote); reflexivity.
+Qed.
+
+Lemma x_iter_progress remote local s s' : xh s <> XNone -> x_iter remote local s = Some s' ->
+  xrank (xh s') = xrank (xh s) - 1.
+Proof.
+  intros H E. unfold x_iter in E. destruct (blen (xbuf s) >=? xneed s); [|discriminate].
+  inversion E; subst. apply (x_handle_rank remote local (x_setbuf s _) _ H).
+Qed.
+
+Lemma x_loop_terminates remote local fuel : forall s it, xrank (xh s) < Z.of_nat fuel ->
+  exists s' it' b, x_loop remote local fuel s it = Some (s', it', b) /\ it <= it' <= it + xrank (xh s) + 1 /\
+                   (b = true -> xh s' = XNone).
+Proof.
+  induction fuel as [|f IH]; intros s it Hf.
+  - destruct (xh s); cbn in Hf; lia.
+  - cbn [x_loop]. destruct (xh s) eqn:E.
+    4: { exists s, it, true. cbn. repeat split; try lia. intros _. exact E. }
+    all: assert (Hn : xh s <> XNone) by (rewrite E; discriminate).
+    all: destruct (x_iter remote local s) as [s1|] eqn:I.
+    all: try (exists s, (it + 1), false; cbn; repeat split; try lia; discriminate).
+    all: pose proof (x_iter_progress remote local s s1 Hn I) as R; rewrite E in R.
+    all: destruct (IH s1 (it + 1) ltac:(try rewrite E in Hf; cbn in *; lia)) as (s' & it' & b & Hr & Hi & Hb).
+    all: exists s', it', b; (split; [exact Hr|split; [cbn in *; lia|exact Hb]]).
+Qed.
+
+Lemma x_feed_total remote local s chunk :
+  exists s' it, x_feed remote local s chunk = Some (s', it) /\ 0 <= it <= 4.
+Proof.
+  unfold x_feed. destruct (xh s) eqn:E.
+  4: { eexists _, 0. split; [reflexivity|lia]. }
+  all: set (s1 := x_setbuf s (xbuf s ++ chunk)).
+  all: assert (E1 : xh s1 = xh s) by reflexivity.
+  all: destruct (x_loop_terminates remote local 4 s1 0 ltac:(rewrite E1, E; cbn; lia)) as (s' & it & b & Hr & Hi & _).
+  all: rewrite Hr; rewrite E1, E in Hi; cbn in Hi.
+  all: destruct b; eexists _, it; (split; [reflexivity|lia]).
+Qed.
+
+(* over a whole conversation the handler calls number at most 3 in total (plus one "need more" pass per chunk):
+   the rank only goes down *)
+Lemma x_loop_rank remote local fuel : forall t i s' it b, x_loop remote local fuel t i = Some (s', it, b) ->
+  xrank (xh s') <= xrank (xh t) /\ i <= it <= i + (xrank (xh t) - xrank (xh s')) + 1.
+Proof.
+  induction fuel as [|f IH]; intros t i s' it b Hr; cbn [x_loop] in Hr.
+  - destruct (xh t) eqn:Et; try discriminate. inversion Hr; subst. rewrite Et. cbn. lia.
+  - destruct (xh t) eqn:Et.
+    4: { inversion Hr; subst. rewrite Et. cbn. lia. }
+    all: assert (Hn : xh t <> XNone) by (rewrite Et; discriminate).
+    all: destruct (x_iter remote local t) as [t1|] eqn:I.
+    all: try (inversion Hr; subst; rewrite Et; cbn; lia).
+    all: pose proof (x_iter_progress remote local t t1 Hn I) as R; rewrite Et in R.
+    all: destruct (IH t1 (i + 1) s' it b Hr) as (A & B);
+      set (a := xrank (xh s')) in *; set (c := xrank (xh t1)) in *; cbn [xrank] in *; lia.
+Qed.
+
+Lemma x_feed_rank remote local s chunk s' it : x_feed remote local s chunk = Some (s', it) ->
+  xrank (xh s') <= xrank (xh s) /\ 0 <= it <= (xrank (xh s) - xrank (xh s')) + 1.
+Proof.
+  unfold x_feed. destruct (xh s) eqn:E.
+  4: { intros H; inversion H; subst. cbn. rewrite E. cbn. lia. }
+  all: set (s1 := x_setbuf s (xbuf s ++ chunk)).
+  all: assert (E1 : xh s1 = xh s) by reflexivity.
+  all: destruct (x_loop remote local 4 s1 0) as [[[s2 it2] b]|] eqn:L; [|discriminate].
+  all: destruct (x_loop_rank remote local 4 s1 0 s2 it2 b L) as (A & B); rewrite E1, E in *.
+  all: destruct b; intros H; inversion H; subst; cbn in *; lia.
+Qed.
